@@ -69,6 +69,7 @@ def answers(obj, probes_, exact, heavy=True):
     area = float(obj) if not exact else Sp.IntegrateShape.area(obj)
     out.append(("area", area))
     out.append(("lengths", tuple(sorted(float(j) for j in obj.jordans))))
+    out.append(("moments", Sp.IntegrateShape.polynomial(obj, 1, 0), Sp.IntegrateShape.polynomial(obj, 0, 1)))
     b = obj.box()
     out.append(("box", (b.lowpt[0], b.lowpt[1], b.toppt[0], b.toppt[1])))
     out.append(("in", tuple(p in obj for p in probes_)))
